@@ -136,11 +136,34 @@ def replay_case(arg):
     kind, sval = static_choice
     record = {"hist": case["hist"], "static_kind": kind, "stage": None, "outcome": None}
 
-    def new_task(tid, st, cx):
+    # look-alike mode: source tasks that are identical in every attribute (same name, same function object,
+    # equal static inputs) are still DISTINCT tasks of the workflow (the spec identifies tasks by identity)
+    lookalike = seed % 5 == 0
+    shared_fn: dict = {}
+    alike: dict[int, int] = {}
+    tidmap: dict[int, int] = {}
+    calls = {"n": 0}
+
+    def tid_of(task):
+        return tidmap.get(id(task), None) or _tid(task)
+
+    def new_task(tid, st, cx, source=False):
         statics[tid] = (sval,) if st == 1 else ()
         ctxflag[tid] = cx
-        t = Task(f"t{tid}", _mk_fn(tid, cx, rec, seed, ctxbox), *statics[tid])
+        if lookalike and source and not cx:
+            grp = -(st + 1)
+            if grp not in shared_fn:
+                def fn(*args, _g=grp):
+                    calls["n"] += 1
+                    return ("T", _g, False, *args)
+
+                shared_fn[grp] = fn
+            alike[tid] = grp
+            t = Task(f"src{st}", shared_fn[grp], *statics[tid])
+        else:
+            t = Task(f"t{tid}", _mk_fn(tid, cx, rec, seed, ctxbox), *statics[tid])
         tasks[tid] = t
+        tidmap[id(t)] = tid
         return t
 
     def other_wf(shape, first):
@@ -159,7 +182,7 @@ def replay_case(arg):
         for op in hist:
             record["stage"] = op["op"]
             if op["op"] == "add":
-                t = new_task(op["id"], op["st"], op["ctx"])
+                t = new_task(op["id"], op["st"], op["ctx"], source=not _seqlist(op["preds"]))
                 preds = [tasks[p] for p in _seqlist(op["preds"])]
                 rng.shuffle(preds)
                 if not preds:
@@ -172,10 +195,13 @@ def replay_case(arg):
                 old = tasks[op["old"]]
                 t = new_task(op["id"], op["st"], ctxflag[op["old"]])
                 wb.replace_task(old, t)
+                alike.pop(op["old"], None)
             elif op["op"] in ("insert", "insert_refused"):
                 owf = other_wf(op["shape"], op["first"])
                 preds = [tasks[p] for p in _seqlist(op["preds"])]
                 p = None if not preds else (preds[0] if len(preds) == 1 and rng.random() < 0.5 else preds)
+                if op.get("empty"):
+                    p = []  # explicit empty list: unconnected insertion (not None = current outputs)
                 try:
                     wb.insert_workflow(owf, predecessors=p)
                     if op["op"] == "insert_refused":
@@ -189,12 +215,12 @@ def replay_case(arg):
             elif op["op"] == "plus":
                 wb = wb + other_wf(op["shape"], op["first"])
             elif op["op"] in ("execute", "execute_refused"):
-                got_nodes = [_tid(t) for t in wb.tasks]
+                got_nodes = [tid_of(t) for t in wb.tasks]
                 if got_nodes != _seqlist(op["bnodes"]):
                     record["outcome"] = "node_order"
                     return ("violation", record, f"builder node order {got_nodes} != spec {op['bnodes']}", None)
                 # the builder's graph: exactly the declared tasks and edges (also when execution is then refused)
-                got_edges = sorted((_tid(a), _tid(b)) for a, b in wb._g.edges())
+                got_edges = sorted((tid_of(a), tid_of(b)) for a, b in wb._g.edges())
                 exp_edges = sorted((a, b) for a, b in case["edges"])
                 if got_edges != exp_edges or sorted(got_nodes) != sorted(case["nodes"]):
                     record["outcome"] = "graph"
@@ -213,7 +239,7 @@ def replay_case(arg):
                     record["outcome"] = "accepted"
                     return ("violation", record, "a workflow without a single output task was executed", None)
                 # frozen projection (pre-dispatch): tasks and edges exactly as declared
-                got_edges = sorted((_tid(a), _tid(b)) for a, b in wf._g.edges())
+                got_edges = sorted((tid_of(a), tid_of(b)) for a, b in wf._g.edges())
                 exp_edges = sorted((a, b) for a, b in case["edges"])
                 if got_edges != exp_edges or sorted(got_nodes) != sorted(case["nodes"]):
                     record["outcome"] = "graph"
@@ -221,10 +247,17 @@ def replay_case(arg):
 
                 def conv(term):
                     t = term["fn"]
-                    return ("T", t, bool(term["ctx"]), *statics[t], *[conv(a) for a in _seqlist(term["args"])])
+                    return ("T", alike.get(t, t), bool(term["ctx"]), *statics[t], *[conv(a) for a in _seqlist(term["args"])])
 
                 expected = conv(case["expected"])
                 trace = {"nodes": case["nodes"], "edges": [list(e) for e in exp_edges], "events": rec.events}
+                if alike:
+                    # the shared function cannot tell which look-alike it runs for: no event trace, but every one of them
+                    # must have been called exactly once
+                    trace = None
+                    if calls["n"] != len(alike):
+                        record["outcome"] = "lookalike_calls"
+                        return ("violation", record, f"{len(alike)} look-alike source tasks, their function was called {calls['n']} time(s)", None)
                 if res != expected:
                     record["outcome"] = "result"
                     return ("violation", record, f"execute_workflow returned {res!r}, specification term is {expected!r}", trace)
